@@ -2,7 +2,8 @@
    Model: Params.v (parameters.cpp check()/constructors, coloquinte.cpp setters/addNet/setNets/check,
    entry of placeGlobal/legalize/placeDetailed); generated defaults table ParamsDefaults_gen.v
    (dumped from the C++ on every run); proofs in ParamsProofs.v.  The model follows the REPAIRED code
-   (commits d9ad548, f145d5b, 7682226 on agent/C19, finding F13); the `_refuted` items are about the
+   (finding F13; on /repo main the three repairs are 7d9492b, 4923091, 6486076 -- developed as d9ad548, f145d5b,
+   7682226 on agent/C19, the ids used in the comments below); the `_refuted` items are about the
    `_orig` definitions that model the code before the repair and document the finding.
    Labels: [F] all inputs; [F, finite] nine efforts by computation over the generated table;
    [R] refuted for the unrepaired model. *)
@@ -56,8 +57,10 @@ Proof. exact detailed_ctor_orig_aborts. Qed.
 
 (* ---------------------------------------------------------------- check() *)
 
-(* [F] the check accepts exactly the documented ranges (Prop-level reading over Q with the exact
-   binary bounds) *)
+(* [F; a Prop-level READING of check(), not an independent specification: coloquinte_ok is a hand transcription of
+   the same *_tests lists (the checker proved against itself).  The header documents no ranges, and two messages
+   of the C++ disagree with the accepted sets ("between 0 and 0.5" vs [-0.1, 0.9f]; "0<...<1" vs [-1, 2])]
+   check() returns no message iff the Prop-level ranges hold (over Q with the exact binary bounds) *)
 Theorem c19_check_accepts_exactly_the_ranges : forall p, check_coloquinte p = None <-> coloquinte_ok p.
 Proof. exact coloquinte_check_ok. Qed.
 
@@ -68,13 +71,16 @@ Proof. intros p m. exact (first_fail_first (coloquinte_tests p) m). Qed.
 
 (* ---------------------------------------------------------------- entry of the stages *)
 
-(* [F] a rejected parameter set is refused by an exception before any placement work and leaves
+(* [by construction of the model + validated per run: `enter` (Params.v) is a three-line function with the check first,
+   so "before any placement work" is how the model is written; what the C++ does before check() -- the InUseGuard
+   write (excluded from the comparison), the parameter copy in place_detailed.cpp -- is not modelled]
+   a rejected parameter set is refused by an exception before any placement work and leaves
    the circuit exactly as it was (all 14 vectors and the three flags), at all three stages *)
 Theorem c19_rejected_params_leave_circuit : forall s p c m,
   check_coloquinte p = Some m -> enter s p c = CThrow m c.
 Proof. exact rejected_params_leave_circuit. Qed.
 
-(* [F] the stages refuse exactly the parameter sets outside the documented ranges *)
+(* [F, same reading] the stages refuse exactly the parameter sets outside coloquinte_ok (the transcription of check()) *)
 Theorem c19_refused_iff_out_of_range : forall s p c,
   (exists m, enter s p c = CThrow m c) <-> ~ coloquinte_ok p.
 Proof. exact rejected_iff_out_of_range. Qed.
